@@ -185,6 +185,8 @@ func roundTrips() {
 		{"n", "7"}, {"nf", "0.25"}, {"ef", "0.5"}, {"trim", "f"}, {"trim", "t"}, {"calltree", "t"}, {"dropneg", "t"}, {"rel", "t"}, {"unit", "ms"}, {"compact", "t"}, {"intel", "t"}, {"mean", "t"},
 		{"noinlines", "t"}, {"showcolumns", "t"}, {"g", "lines"}, {"g", "files"}, {"s", ""}, {"sort", "cum"}, {"f", "a b&c=d"}, {"f", "é\"<"}, {"n", "0"}, {"nf", "0"},
 		// fractions with many significant digits, very small ones: restored exactly
+		// text options whose value looks like a boolean or a number
+		{"f", "true"}, {"i", "false"}, {"h", "t"}, {"tf", "f"}, {"sf", "1"}, {"unit", "true"},
 		{"nf", "0.0001234567"}, {"ef", "0.12345678"}, {"nf", "1e-07"}, {"ef", "0.30000000000000004"}, {"nf", "0.1234567890123"}}
 	reset()
 	withServer(func(s *server) {
